@@ -44,6 +44,9 @@ class C30(Check):
                                "tamper": tamper, "lost": rng.random() < 0.04,
                                "outs": {t["pos"]: (rng.randrange(65536), rng.random() < 0.5, rng.randrange(256)) for t in terms}})
             out.append({"terms": terms, "cycles": cycles})
+            if len(out) % 3 == 0:
+                # the group had been started, run for some cycles (its devices writing outputs) and cancelled before: a restart
+                out[-1]["prior"] = 2 + len(out) % 4
         return out
 
     def run_impl(self, case):
@@ -82,9 +85,15 @@ class C30(Check):
             cyc = {"n": 0}
             records, truths = [], []
 
+            measuring = [not case.get("prior")]
+            prior_cycles = [0]
+
             def deliver(no, req, resp):
                 idx, = struct.unpack_from("<I", req, 4)
                 if idx != getattr(sg, "packet_index", None) or len(req) < 30 or req[2] != 0 or sg.current_data is None:
+                    return [resp]
+                if not measuring[0]:
+                    prior_cycles[0] += 1
                     return [resp]
                 k = cyc["n"]
                 if k >= len(case["cycles"]):
@@ -118,6 +127,25 @@ class C30(Check):
             rig.connect(deliver)
             for sim, t in zip(rig.sims, case["terms"]):
                 sim.mem[0x1180:0x1180 + t["in"]] = case["cycles"][0]["inputs"][t["pos"]]
+            if case.get("prior"):
+                for d in devs:
+                    d.script = [(0x5a5a, True, 0x77)] * 50
+                task = sg.start()
+                for _ in range(4000):
+                    await asyncio.sleep(0)
+                    if prior_cycles[0] >= case["prior"] or task.done():
+                        break
+                task.cancel()
+                try:
+                    await task
+                except BaseException:      # noqa
+                    pass
+                for d, t in zip(devs, rig.terms):
+                    d.script = [c["outs"][t.position] for c in case["cycles"]]
+                    d.seen, d.errs = [], []
+                for sim, t in zip(rig.sims, case["terms"]):
+                    sim.mem[0x1180:0x1180 + t["in"]] = case["cycles"][0]["inputs"][t["pos"]]
+                measuring[0] = True
             task = sg.start()
             for _ in range(4000):
                 await asyncio.sleep(0)
@@ -249,7 +277,8 @@ class C30(Check):
         return not isinstance(o, Err) and any(c["tamper"] for c in case["cycles"][1:])
 
     def rule(self):
-        return ("1-4 terminals (FMMU or direct addressing, in 8-14 / out 4-9 bytes, a quarter only read although they have outputs) in a real SyncGroup on the simulated bus, 3-6 cycles with random input data, "
+        return ("every third case as a RESTART (the same group object had run for 2-5 cycles, its devices writing outputs, and been cancelled); " +
+                "1-4 terminals (FMMU or direct addressing, in 8-14 / out 4-9 bytes, a quarter only read although they have outputs) in a real SyncGroup on the simulated bus, 3-6 cycles with random input data, "
                 "device outputs (word, bit, byte per terminal), working counters tampered per datagram (+1, +256, +512, 0, -1, high byte garbage) and 4% lost frames; "
                 "non-trivial = a tampered counter after the first cycle")
 
@@ -266,12 +295,14 @@ class C30(Check):
     def describe(self, case):
         return {"terms": case["terms"],
                 "cycles": [{"inputs": {str(k): v.hex() for k, v in c["inputs"].items()}, "tamper": {str(k): v for k, v in c["tamper"].items()},
-                            "lost": c["lost"], "outs": {str(k): list(v) for k, v in c["outs"].items()}} for c in case["cycles"]]}
+                            "lost": c["lost"], "outs": {str(k): list(v) for k, v in c["outs"].items()}} for c in case["cycles"]],
+                **({"prior": case["prior"]} if case.get("prior") else {})}
 
     def case_from_json(self, w):
         return {"terms": w["terms"],
                 "cycles": [{"inputs": {int(k): bytes.fromhex(v) for k, v in c["inputs"].items()}, "tamper": {int(k): v for k, v in c["tamper"].items()},
-                            "lost": c["lost"], "outs": {int(k): tuple(v) for k, v in c["outs"].items()}} for c in w["cycles"]]}
+                            "lost": c["lost"], "outs": {int(k): tuple(v) for k, v in c["outs"].items()}} for c in w["cycles"]],
+                **({"prior": w["prior"]} if w.get("prior") else {})}
 
 
 # run_impl must stash its result for model_term (which needs the observed responses)
